@@ -200,12 +200,13 @@ package decorator
 //@ uninterp func wname(i int) string
 //@ uninterp func wdata(i int) []byte
 //@ uninterp func wperm(i int) int
+//@ uninterp func wok(i int) bool
 
 //@ func callback.writeFile
 //@ trusted
 //@ attr params = filename, data, perm
 //@ modifies ghost(nwrites)
-//@ ensures logged: nwrites == old(nwrites) + 1 && wname(old(nwrites)) == filename && wdata(old(nwrites)) == data && wperm(old(nwrites)) == perm
+//@ ensures logged: nwrites == old(nwrites) + 1 && wname(old(nwrites)) == filename && wdata(old(nwrites)) == data && wperm(old(nwrites)) == perm && wok(old(nwrites)) == (result == nil)
 
 // What save relies on: printing one file does not touch the package's file list, the decorator's
 // file-name table or the write log.
@@ -217,5 +218,7 @@ package decorator
 //@ ensures at_most_one_each: nwrites >= old(nwrites) && nwrites - old(nwrites) <= len(p.Syntax)
 //@ ensures in_order_to_own_path: forall j int :: 0 <= j && j < nwrites - old(nwrites) ==> wname(old(nwrites) + j) == p.Decorator.Filenames[p.Syntax[j]] && wperm(old(nwrites) + j) == 438
 //@ ensures file_list_untouched: len(p.Syntax) == old(len(p.Syntax))
+//@ ensures failed_write_reported: result == nil ==> (forall j int :: 0 <= j && j < len(p.Syntax) ==> wok(old(nwrites) + j))
+//@ ensures nothing_after_failed_write: forall j int :: 0 <= j && j + 1 < nwrites - old(nwrites) ==> wok(old(nwrites) + j)
 //@ loop 1 invariant count: nwrites == entry(nwrites) + $i && 0 <= $i && $i <= len(p.Syntax)
-//@ loop 1 invariant names: forall j int :: 0 <= j && j < $i ==> wname(entry(nwrites) + j) == p.Decorator.Filenames[p.Syntax[j]] && wperm(entry(nwrites) + j) == 438
+//@ loop 1 invariant names: forall j int :: 0 <= j && j < $i ==> wname(entry(nwrites) + j) == p.Decorator.Filenames[p.Syntax[j]] && wperm(entry(nwrites) + j) == 438 && wok(entry(nwrites) + j)
